@@ -199,6 +199,15 @@ def run():
     must(ws(r"let pbs: Vec<MInt> = bsteps\.iter\(\)\.map\(\|p\| p\.1\)\.collect\(\); "
             r"let pgs: Vec<MInt> = gsteps\.iter\(\)\.map\(\|p\| p\.1\)\.collect\(\); "
             r"let mut vals = Poly::roots_eval\(zn, &pgs, &pbs\);"), b_ecm, "ecm::ecm_curve: roots_eval arm")
+    # the values handed to check_gcd_factor: quadratic arm = 1 followed by one cumulative product per giant step;
+    # roots_eval arm = the cumulative products shifted by one AND the full product pushed at the end
+    must(ws(r"let mut buffer = zn\.one\(\); let mut prods = Vec::with_capacity\(gsteps\.len\(\)\); prods\.push\(buffer\); for pg in gsteps \{"),
+         b_ecm, "ecm::ecm_curve: quadratic arm starts the products with 1")
+    must(ws(r"prods\.push\(buffer\); \} if let Some\(d\) = check_gcd_factor\(n, &prods\) \{ result = Some\(\(d, n / d\)\); \}"), b_ecm,
+         "ecm::ecm_curve: quadratic arm hands every row product to check_gcd_factor")
+    must(ws(r"let mut prod = zn\.one\(\); for i in 0\.\.vals\.len\(\) \{ let v = vals\[i\]; vals\[i\] = prod; prod = zn\.mul\(&prod, &v\); \} "
+            r"vals\.push\(prod\); if let Some\(d\) = check_gcd_factor\(n, &vals\) \{ result = Some\(\(d, n / d\)\); \}"), b_ecm,
+         "ecm::ecm_curve: roots_eval arm: cumulative products and the final vals.push(prod)")
     # --- ECM128
     b_e128 = fn_body(ecm128, r"fn ecm_curve\(\s*c: &Curve,", "ecm128::ecm_curve")
     e128 = ecm_like(b_e128, "ecm128::ecm_curve", r"c\.scalar64_mul\(d1, &g\)", r"c\.dblext\(&dg\)",
@@ -207,6 +216,8 @@ def run():
     must(ws(r"let dgext = c\.ext\(&dg\);"), b_e128, "ecm128::ecm_curve: dgext")
     must(ws(r"for pg in gsteps \{ for pb in bsteps \{ let delta_y = sub\(pg\.1, pb\.1\); "
             r"buffer = mul\(buffer, delta_y\); \} prods\.push\(buffer\); \}"), b_e128, "ecm128::ecm_curve: products")
+    must(ws(r"let d = Integer::gcd\(&buffer\.0, &c\.n\); if d > 1 && d < n \{ return Some\(\(d, n / d\)\); \} None"), b_e128,
+         "ecm128::ecm_curve: final gcd of the full product with the return guard")
     # --- P+1
     b_pp1 = fn_body(pp1, r"pub fn pp1\(", "pp1::pp1")
     m = must(ws(r"v\.push\(g\.clone\(\)\); let mut exp = (\d+); (?:debug_assert!\([^;]*\); )?"
@@ -225,6 +236,9 @@ def run():
     pp1_pushed = 2 if m.group(1) else 1
     pp1_loop_lo = int(m.group(2))
     must(ws(r"let vals = Poly::roots_eval\(&zn, &gsteps, &bsteps\);"), b_pp1, "pp1: roots_eval(gsteps, bsteps)")
+    must(ws(r"prods\.push\(zn\.one\(\)\); for v in vals \{ prods\.push\(zn\.mul\(prods\.last\(\)\.unwrap\(\), &v\)\); \} "
+            r"let logstage = [^;]*; check_gcd_factors\(&n, &mut factors, &mut nred, &mut prods, logstage\);"), b_pp1,
+         "pp1: every value of roots_eval enters the cumulative products handed to check_gcd_factors")
     must(ws(r"if p > b1 \{ break; \} g = chebyshev_modn\(&zn, &g, pow\);"), b_pp1, "pp1: stage-1 stop test")
     b_cheb = fn_body(pp1, r"fn chebyshev_modn\(", "pp1::chebyshev_modn")
     m = must(ws(r"if exp == 0 \{ return (zn\.one\(\)|zn\.add\(&zn\.one\(\), &zn\.one\(\)\)); \}"), b_cheb,
@@ -252,6 +266,11 @@ def run():
     pm1_off = int(m.group(1))
     # --- P-1 prime walk
     b_pm1 = fn_body(pm1, r"pub fn pm1_impl\(", "pm1_impl")
+    # polynomial path: gcd_factors' list is appended directly; since 9b94f92 a list containing n is refused
+    m = must(ws(r"let \(mut f2, n2\) = pm1_stage2_polyeval\(&zn, b2, g\); (if f2\.contains\(n\) \{ return None; \} )?"
+                r"factors\.append\(&mut f2\); nred = n2; logtime\(\); if !factors\.is_empty\(\) \{ return Some\(\(factors, nred\)\); \} return None;"),
+             b_pm1, "pm1_impl: polynomial path result")
+    pm1_poly_guard = "true" if m.group(1) else "false"
     must(ws(r"let stop = p > b1;"), b_pm1, "pm1_impl: stage-1 stop test")
     must(ws(r"let mut x = exp_modn\(&zn, &g, p_prev as u64\);"), b_pm1, "pm1 walk: starts at g^p_prev")
     must(ws(r"for &p in block \{ if p <= p_prev \{ continue; \} let gap = \(p - p_prev\) as usize;"), b_pm1,
@@ -358,6 +377,8 @@ def pm1Baby : Nat × Nat := ({pm1_start}, {pm1_step})
 /-- `negsteps[i]` uses `gaps[d2 - NEG - i]`; the evaluations read are `z[p.len() - OFF ..]` with entry 0 overwritten. -/
 def pm1Neg : Nat := {pm1_neg}
 def pm1ValsOff : Nat := {pm1_off}
+/-- `pm1_impl`, polynomial path: whether `if f2.contains(n) {{ return None; }}` guards the appended list -/
+def pm1PolyGuard : Bool := {pm1_poly_guard}
 
 /-- `PM1Base::factor`: (budget giving the whole stage 1, minimal budget of stage 2, offset of `pmax`, number of
 jumps, first large prime = start exponent). -/
